@@ -217,6 +217,54 @@ func TestC04(t *testing.T) {
 			c.c04Program(s, "rand-reentrant-recursion", src, true, "reentrant-recursion")
 		})
 
+		c.Rapid("closures-in-loops", n/2, func(rt *rapid.T, s *Sub) {
+			// closures created in loop iterations, recursive calls and blocks: each captures the loop variable (one per
+			// loop statement), a per-iteration local and an outer counter; they are stored in arrays/objects and called
+			// later in random order, some several times
+			P, V, F, R := bn.KwPrint, bn.KwVar, bn.KwFun, bn.KwReturn
+			var b strings.Builder
+			b.WriteString(V + " rds = [];\n" + V + " bumps = [];\n" + V + " total = 0;\n" + V + " reg = {last: nil};\n")
+			n := rapid.IntRange(1, 4).Draw(rt, "iters")
+			made := 0
+			switch rapid.IntRange(0, 3).Draw(rt, "maker") {
+			case 0:
+				fmt.Fprintf(&b, "%s (%s i = 0; i < %d; i = i + 1) {\n  %s j = i * 10;\n  %s rd() { %s [i, j, total]; }\n  %s bump() { j = j + 1; total = total + 1; %s j; }\n  rds = %s(rds, rd);\n  bumps = %s(bumps, bump);\n  reg.last = bump;\n}\n",
+					bn.KwFor, V, n, V, F, R, F, R, bn.BPush, bn.BPush)
+				made = n
+			case 1:
+				fmt.Fprintf(&b, "%s w = 0;\n%s (w < %d) {\n  w = w + 1;\n  %s j = w * 10;\n  {\n    %s k = j + 1;\n    %s rd() { %s [w, j, k, total]; }\n    %s bump() { k = k + 1; j = j + 100; total = total + 1; %s k; }\n    rds = %s(rds, rd);\n    bumps = %s(bumps, bump);\n    reg.last = bump;\n  }\n}\n",
+					V, bn.KwWhile, n, V, V, F, R, F, R, bn.BPush, bn.BPush)
+				made = n
+			case 2:
+				fmt.Fprintf(&b, "%s build(d) {\n  %s j = d * 10;\n  %s rd() { %s [d, j, total]; }\n  %s bump() { j = j + 1; total = total + 1; %s j; }\n  rds = %s(rds, rd);\n  bumps = %s(bumps, bump);\n  reg.last = bump;\n  %s (d > 1) build(d - 1);\n  %s j;\n}\n%s build(%d);\n",
+					F, V, F, R, F, R, bn.BPush, bn.BPush, bn.KwIf, R, P, n)
+				made = n
+			default:
+				fmt.Fprintf(&b, "%s mk2(seed) {\n  %s j = seed;\n  %s rd() { %s [seed, j, total]; }\n  %s bump() { j = j + 1; total = total + 1; %s j; }\n  %s [rd, bump];\n}\n%s (%s i = 0; i < %d; i = i + 1) {\n  %s pair = mk2(i * 10);\n  rds = %s(rds, pair[0]);\n  bumps = %s(bumps, pair[1]);\n  reg.last = pair[1];\n}\n",
+					F, V, F, R, F, R, R, bn.KwFor, V, n, V, bn.BPush, bn.BPush)
+				made = n
+			}
+			calls := rapid.IntRange(2, 14).Draw(rt, "calls")
+			for c2 := 0; c2 < calls; c2++ {
+				k := rapid.IntRange(0, made-1).Draw(rt, "which")
+				switch rapid.IntRange(0, 4).Draw(rt, "callKind") {
+				case 0, 1:
+					fmt.Fprintf(&b, "%s bumps[%d]();\n", P, k)
+				case 2:
+					fmt.Fprintf(&b, "%s rds[%d]();\n", P, k)
+				case 3:
+					fmt.Fprintf(&b, "%s reg.last();\n", P)
+				default:
+					fmt.Fprintf(&b, "%s [rds[%d](), bumps[%d](), rds[%d]()];\n", P, k, k, k)
+				}
+			}
+			for k := 0; k < made; k++ {
+				fmt.Fprintf(&b, "%s rds[%d]();\n", P, k)
+			}
+			b.WriteString(P + " total;\n")
+			c.c04Program(s, "closures-in-loops", place(b.String(), drawPlacement(rt)), made >= 2, "closures-in-loops")
+		})
+
 		c.Rapid("closure-histories", n, func(rt *rapid.T, s *Sub) {
 			var b strings.Builder
 			b.WriteString(c04ClosurePrelude)
